@@ -338,6 +338,13 @@ def Out.abs (n : Nat) : Out → Out
   | .trace evs => .counts ((List.range n).map fun h => (countEv evs h .pre, countEv evs h .post))
   | o => o
 
+def sexec (s : SState) (ops : List Op) : SState := ops.foldl (fun s op => (sstep s op).1) s
+
+/-- outputs of the code-shaped machine as the specification sees them -/
+def runAbs (s : State) : List Op → List Out
+  | [] => []
+  | op :: ops => (step s op).2.abs s.hooks.length :: runAbs (step s op).1 ops
+
 /-! ### Value transformers of `Clamping` and `Normalization` (generic in the number type) -/
 
 /-- `torch.clamp(x, min=lo, max=hi)` on one element: `min(max(x, lo), hi)`. -/
